@@ -10,7 +10,8 @@
                                 SQLiteProvider.acquire_lock/release_lock/set_transaction_mode/commit/rollback/drop/release
     pony/orm/core.py            SessionCache.connect/reconnect/prepare_connection_for_query_execution/flush (the
                                 `immediate` bookkeeping)/flush_and_commit/commit/rollback/release/close,
-                                Database._get_cache/_exec_sql/get_connection, core.commit/rollback,
+                                Database._get_cache/_exec_sql/get_connection, Query._actual_fetch (its two calls),
+                                core.commit/rollback,
                                 rollback_and_reraise, db_session.__exit__/_commit_or_rollback (one database)
 
   Every DB-API call (`connect`, `cursor`, `execute`, `executemany`, `commit`, `rollback`, `close`) asks the failure
@@ -459,7 +460,7 @@ def getConnection (cf : Cfg) : M Unit := do
 
 /-- what user code does inside a session -/
 inductive Op
-  | query                       -- a SELECT through Database._exec_sql
+  | query                       -- an ORM query (Query._actual_fetch): prepare_connection_for_query_execution, then _exec_sql
   | write (many : Bool)         -- db.execute / db.insert: _exec_sql(start_transaction=True)
   | modify (ws : List Bool)     -- create / change objects: cache.modified, statements issued by the next flush
   | flush                       -- flush()
@@ -469,7 +470,10 @@ inductive Op
   deriving Repr, Inhabited
 
 def runOp (cf : Cfg) : Op → M Unit
-  | .query => execSql cf false false
+  | .query => do
+      getCache cf                 -- cache = database._get_cache()
+      let _ ← prepare cf          -- cache.prepare_connection_for_query_execution()   (result not cached)
+      execSql cf false false      -- database._exec_sql(sql, arguments)
   | .write many => execSql cf true many
   | .modify ws => do
       getCache cf
